@@ -212,3 +212,148 @@ Example parse_fs_instance :
 Proof. vm_compute. reflexivity. Qed.
 Example parse_fs_circular : parse_fs (bs "#include ""d.tars"" module M { };") [ (bs "d.tars", bs "#include ""in.tars"" module D { };") ] = FErr.
 Proof. vm_compute. reflexivity. Qed.
+
+(* ---------------- every user type named in a file's generated code has its defining module imported ---------------- *)
+(* FindTNameType reports the module that DEFINES the type: the name looked up is that module's name, "::", and the
+   name of one of its structs or enums - however deep in the include tree the module sits *)
+Lemma beq_sym_true : forall a b, beq a b = true -> beq b a = true.
+Proof. intros a b H. apply beq_true in H. subst. apply beq_refl. Qed.
+
+Lemma find_tname_owner : forall m full, find_tname m full <> CNone ->
+  exists n, full = m_name m ++ colons ++ n /\
+            (existsb (fun s => beq (st_name s) n) (m_structs m) || existsb (fun e => beq (en_name e) n) (m_enums m)) = true.
+Proof.
+  intros m full H. unfold find_tname in H.
+  destruct (existsb (fun s => beq (m_name m ++ colons ++ st_name s) full) (m_structs m)) eqn:E1.
+  - apply existsb_exists in E1. destruct E1 as [s [Hin Hb]]. apply beq_true in Hb. exists (st_name s). split; [symmetry; exact Hb|].
+    apply orb_true_iff. left. apply existsb_exists. exists s. split; [exact Hin | apply beq_refl].
+  - destruct (existsb (fun e => beq (m_name m ++ colons ++ en_name e) full) (m_enums m)) eqn:E2; [|congruence].
+    apply existsb_exists in E2. destruct E2 as [e [Hin Hb]]. apply beq_true in Hb. exists (en_name e). split; [symmetry; exact Hb|].
+    apply orb_true_iff. right. apply existsb_exists. exists e. split; [exact Hin | apply beq_refl].
+Qed.
+
+(* the modules of a tree of parsed files *)
+Fixpoint tree_modules (t : ptree) : list module :=
+  match t with PT m incs => m :: flat_map tree_modules incs end.
+
+Theorem find_tname_t_owner : forall t full c modn, find_tname_t t full = Some (c, modn) ->
+  exists m n, In m (tree_modules t) /\ m_name m = modn /\ full = modn ++ colons ++ n /\
+              (existsb (fun s => beq (st_name s) n) (m_structs m) || existsb (fun e => beq (en_name e) n) (m_enums m)) = true.
+Proof.
+  fix IH 1. intros [m0 l0] full c modn H. cbn [find_tname_t] in H.
+  destruct (find_tname m0 full) eqn:Ef.
+  - (* not in this file's module: the included files, in order *)
+    assert (G : forall l, (fix go (l : list ptree) : option (ctype * bytes) :=
+                             match l with [] => None | x :: r => match find_tname_t x full with Some h => Some h | None => go r end end) l = Some (c, modn) ->
+                exists m n, In m (flat_map tree_modules l) /\ m_name m = modn /\ full = modn ++ colons ++ n /\
+                  (existsb (fun s => beq (st_name s) n) (m_structs m) || existsb (fun e => beq (en_name e) n) (m_enums m)) = true).
+    { induction l as [|x r IHr]; intros K; [discriminate|].
+      destruct (find_tname_t x full) as [[c1 m1]|] eqn:Ex.
+      - inversion K; subst. destruct (IH x full c modn Ex) as [m [n [Hin Hr]]]. exists m, n. split; [|exact Hr].
+        cbn [flat_map]. apply in_or_app. left. exact Hin.
+      - destruct (IHr K) as [m [n [Hin Hr]]]. exists m, n. split; [|exact Hr]. cbn [flat_map]. apply in_or_app. right. exact Hin. }
+    destruct (G l0 H) as [m [n [Hin Hr]]]. exists m, n. split; [|exact Hr]. cbn [tree_modules]. right. exact Hin.
+  - inversion H; subst. destruct (find_tname_owner m0 full) as [n [E Hd]]; [congruence|].
+    exists m0, n. split; [cbn [tree_modules]; left; reflexivity|]. split; [reflexivity|]. split; assumption.
+  - inversion H; subst. destruct (find_tname_owner m0 full) as [n [E Hd]]; [congruence|].
+    exists m0, n. split; [cbn [tree_modules]; left; reflexivity|]. split; [reflexivity|]. split; assumption.
+Qed.
+
+(* names without ':' (what the IDL files of practice use; the lexer also lets one "::" through in a declared name) *)
+Definition no_colon (s : bytes) : bool := forallb (fun c => negb (c =? 58)) s.
+Definition module_plain (m : module) : bool :=
+  no_colon (m_name m) && forallb (fun s => no_colon (st_name s)) (m_structs m) && forallb (fun e => no_colon (en_name e)) (m_enums m).
+
+Lemma mod_prefix_app : forall a r, no_colon a = true -> mod_prefix (a ++ colons ++ r) = a.
+Proof.
+  induction a as [|x a IH]; intros r H.
+  - reflexivity.
+  - cbn [no_colon forallb] in H. apply andb_true_iff in H. destruct H as [Hx Ha]. apply negb_true_iff in Hx.
+    cbn [app mod_prefix]. destruct (a ++ colons ++ r) as [|b q] eqn:E.
+    + destruct a; discriminate.
+    + rewrite Hx. cbn [andb]. rewrite <- E. rewrite (IH r Ha). reflexivity.
+Qed.
+
+Lemma count_cc_cons2 : forall a b r, count_cc (a :: b :: r) = if (a =? 58) && (b =? 58) then S (count_cc r) else count_cc (b :: r).
+Proof. reflexivity. Qed.
+Lemma count_cc_no_colon : forall s, no_colon s = true -> count_cc s = O.
+Proof.
+  induction s as [|a s IH]; intros H; [reflexivity|]. destruct s as [|b r]; [reflexivity|].
+  cbn [no_colon forallb] in H. apply andb_true_iff in H. destruct H as [Ha Hr]. apply negb_true_iff in Ha.
+  rewrite count_cc_cons2, Ha. cbn [andb]. apply IH. exact Hr.
+Qed.
+
+Lemma has_prefix_cc : forall p s, has_prefix (p ++ colons) s = true -> count_cc s <> O.
+Proof.
+  induction p as [|a p IH]; intros s H.
+  - destruct s as [|x [|y r]]; cbn [app colons has_prefix] in H.
+    + discriminate.
+    + apply andb_true_iff in H. destruct H as [_ H]. discriminate.
+    + apply andb_true_iff in H. destruct H as [H1 H2]. apply andb_true_iff in H2. destruct H2 as [H2 _].
+      apply N.eqb_eq in H1. apply N.eqb_eq in H2. subst. rewrite count_cc_cons2. change (58 =? 58) with true. cbn [andb]. discriminate.
+  - destruct s as [|x s']; [discriminate|]. cbn [app has_prefix] in H. apply andb_true_iff in H. destruct H as [_ H].
+    specialize (IH s' H). destruct s' as [|y r]; [exfalso; apply IH; reflexivity|].
+    rewrite count_cc_cons2. destruct ((x =? 58) && (y =? 58)); [discriminate | exact IH].
+Qed.
+
+Lemma remove_first_none : forall p s, count_cc s = O -> remove_first (p ++ colons) s = s.
+Proof.
+  intros p. induction s as [|c r IH]; intros H; [reflexivity|]. cbn [remove_first].
+  destruct (has_prefix (p ++ colons) (c :: r)) eqn:E; [exfalso; exact (has_prefix_cc _ _ E H)|].
+  f_equal. apply IH. destruct r as [|b q]; [reflexivity|]. rewrite count_cc_cons2 in H. destruct ((c =? 58) && (b =? 58)); [discriminate | exact H].
+Qed.
+
+Lemma has_prefix_app : forall p r, has_prefix p (p ++ r) = true.
+Proof. induction p as [|a p IH]; intros r; [reflexivity|]. cbn [app has_prefix]. rewrite N.eqb_refl, IH. reflexivity. Qed.
+Lemma skipn_app_len : forall (p r : bytes), skipn (length p) (p ++ r) = r.
+Proof. induction p as [|a p IH]; intros r; [reflexivity|]. cbn [length app skipn]. apply IH. Qed.
+Lemma remove_first_prefix : forall p r, p <> [] -> remove_first p (p ++ r) = r.
+Proof.
+  intros p r Hp. destruct p as [|a p]; [congruence|]. cbn [app remove_first].
+  change (a :: p ++ r) with ((a :: p) ++ r). rewrite has_prefix_app. apply (skipn_app_len (a :: p) r).
+Qed.
+
+(* the statement: in a tree of files whose declared names contain no ':', every module that the analysed type names
+   (and so the generated code: Mod::T -> Mod.T) is among the modules checkDepTName records for the imports *)
+Theorem imports_cover : forall m incs v v', forallb module_plain (tree_modules (PT m incs)) = true ->
+  check_tname_t m incs v = Ok v' -> incl (used_modules v') (recorded_deps m incs v).
+Proof.
+  intros m incs v. induction v as [b u | s c | k IHk | k IHk w IHw | k IHk l]; intros v' Hp H; cbn [check_tname_t] in H.
+  - inversion H; subst. intros x [].
+  - cbn [recorded_deps]. destruct (find_tname_t (PT m incs) _) as [[c0 modn]|] eqn:E; try discriminate.
+    destruct (find_tname_t_owner _ _ _ _ E) as [m1 [n [Hin [Hname [Hfull Hdecl]]]]].
+    rewrite forallb_forall in Hp. pose proof (Hp m1 Hin) as Hm1. unfold module_plain in Hm1.
+    apply andb_true_iff in Hm1. destruct Hm1 as [Hm1 He]. apply andb_true_iff in Hm1. destruct Hm1 as [Hmn Hs].
+    assert (Hn : no_colon n = true).
+    { apply orb_true_iff in Hdecl. destruct Hdecl as [D|D]; apply existsb_exists in D; destruct D as [x [Hx Hb]]; apply beq_true in Hb; subst n.
+      - rewrite forallb_forall in Hs. apply Hs. exact Hx.
+      - rewrite forallb_forall in He. apply He. exact Hx. }
+    subst modn. set (mn := m_name m1) in *.
+    destruct (count_cc s =? 0)%nat eqn:Ec.
+    + (* unqualified in the source: never names a module *)
+      pose proof Ec as Ec'. apply Nat.eqb_eq in Ec'.
+      destruct (beq mn (m_name m)); inversion H; cbn [used_modules].
+      * rewrite (remove_first_none mn s Ec'). rewrite Ec. intros x [].
+      * rewrite Ec. intros x [].
+    + (* qualified: s = mn :: n *)
+      rewrite Hfull in *. destruct (beq mn (m_name m)) eqn:Eb; inversion H; cbn [used_modules].
+      * replace (mn ++ 58 :: 58 :: n) with ((mn ++ colons) ++ n) by (rewrite <- app_assoc; reflexivity).
+        rewrite remove_first_prefix by (destruct mn; discriminate).
+        rewrite (count_cc_no_colon n Hn). intros x [].
+      * change (mn ++ 58 :: 58 :: n) with (mn ++ colons ++ n). rewrite Ec. rewrite (mod_prefix_app mn n Hmn). intros x [<-|[]]. left. reflexivity.
+  - destruct (check_tname_t m incs k) as [k'| |] eqn:E; cbn [bind] in H; try discriminate. inversion H; subst. cbn [used_modules recorded_deps]. eauto.
+  - destruct (check_tname_t m incs k) as [k'| |] eqn:E; cbn [bind] in H; try discriminate.
+    destruct (check_tname_t m incs w) as [w'| |] eqn:E2; cbn [bind] in H; try discriminate. inversion H; subst.
+    cbn [used_modules recorded_deps]. apply incl_app; [apply incl_appl | apply incl_appr]; eauto.
+  - destruct (check_tname_t m incs k) as [k'| |] eqn:E; cbn [bind] in H; try discriminate. inversion H; subst. cbn [used_modules recorded_deps]. eauto.
+Qed.
+
+(* the hypotheses are satisfiable on a chain Top -> Mid -> Leaf where Top names a type of Leaf without including it *)
+Example imports_cover_instance :
+  let leaf := {| m_name := bs "Leaf"; m_structs := [ {| st_name := bs "Item"; st_mb := [] |} ]; m_hashkeys := []; m_enums := []; m_consts := []; m_ifaces := [] |} in
+  let mid := empty_module (bs "Mid") in
+  let top := empty_module (bs "Top") in
+  forallb module_plain (tree_modules (PT top [PT mid [PT leaf []]])) = true /\
+  check_tname_t top [PT mid [PT leaf []]] (VVec (VName (bs "Leaf::Item") CNone)) = Ok (VVec (VName (bs "Leaf::Item") CStruct)) /\
+  recorded_deps top [PT mid [PT leaf []]] (VVec (VName (bs "Leaf::Item") CNone)) = [bs "Leaf"].
+Proof. cbv zeta. repeat split; vm_compute; reflexivity. Qed.
